@@ -213,6 +213,7 @@ type propCfg struct {
 	Race      bool   // also run shards on the -race worker
 	RaceTier  string // "" = both tiers, "thorough" = only in the thorough tier
 	CLI, Wasm bool
+	OneCPU    bool // two of the shards are run a second time in a process pinned to ONE processor (taskset), where runtime.NumCPU() is 1
 	Shards    int
 	Assume    []string
 }
@@ -286,6 +287,7 @@ func runCheck(id, tier string) int {
 		bin  string
 		race bool
 		i, n int
+		one  bool
 	}
 	var jobs []job
 	for i := 0; i < cfg.Shards; i++ {
@@ -297,6 +299,13 @@ func runCheck(id, tier string) int {
 			jobs = append(jobs, job{name: fmt.Sprintf("r%02d", i), bin: "gtworker.race", race: true, i: i, n: rn})
 		}
 	}
+	if cfg.OneCPU {
+		if _, err := exec.LookPath("taskset"); err == nil {
+			for _, i := range []int{0, cfg.Shards / 2} {
+				jobs = append(jobs, job{name: fmt.Sprintf("u%02d", i), bin: "gtworker", i: i, n: cfg.Shards, one: true})
+			}
+		}
+	}
 	results := make([]*shardResult, len(jobs))
 	sem := make(chan struct{}, 16)
 	var wg sync.WaitGroup
@@ -306,7 +315,7 @@ func runCheck(id, tier string) int {
 			defer wg.Done()
 			sem <- struct{}{}
 			defer func() { <-sem }()
-			results[ji] = runShard(work, id, tier, seed, j.name, filepath.Join(binDir(), j.bin), j.race, j.i, j.n)
+			results[ji] = runShard(work, id, tier, seed, j.name, filepath.Join(binDir(), j.bin), j.race, j.i, j.n, j.one)
 		}(ji, j)
 	}
 	wg.Wait()
@@ -499,7 +508,7 @@ func runCheck(id, tier string) int {
 }
 
 // runShard runs one shard to completion, restarting the worker after each death.
-func runShard(work, id, tier string, seed uint64, name, bin string, race bool, shard, nshards int) *shardResult {
+func runShard(work, id, tier string, seed uint64, name, bin string, race bool, shard, nshards int, oneCPU bool) *shardResult {
 	res := &shardResult{}
 	start := 0
 	journal := filepath.Join(work, name+".journal")
@@ -518,6 +527,9 @@ func runShard(work, id, tier string, seed uint64, name, bin string, race bool, s
 			args = append(args, "--race")
 		}
 		cmd := exec.Command(bin, args...)
+		if oneCPU {
+			cmd = exec.Command("taskset", append([]string{"-c", "0", bin}, args...)...)
+		}
 		cmd.Stdout = outF
 		cmd.Stderr = errF
 		cmd.Dir = tmp
@@ -525,9 +537,9 @@ func runShard(work, id, tier string, seed uint64, name, bin string, race bool, s
 		if race {
 			cmd.Env = append(cmd.Env, "GORACE=halt_on_error=0 exitcode=0 log_path="+filepath.Join(work, "race-"+name))
 		}
-		limit := 50 * time.Minute
+		limit := 150 * time.Minute // a safety net for a stuck harness, far above any run time seen even on a loaded machine
 		if tier == "quick" {
-			limit = 15 * time.Minute
+			limit = 40 * time.Minute
 		}
 		timedOut := false
 		if err := cmd.Start(); err != nil {
